@@ -41,6 +41,10 @@ CHECKS = {
    technique="TLC checks the cached evaluator of Eval.tla against the cache-free reference on the declaration families the property names; real runs under all 24 cache/pool configurations (cold and warm) are recorded and validated by TLC against Trace_Runs.tla (every transcript equals the all-off transcript)",
    text="Design: for textually identical declarations in anchoring/non-anchoring positions (and, thorough, all 3-node trees) TLC shows evaluation with the result cache (key as in the code) equals evaluation without it. Code: the whole corpus plus schemas with identical declarations, shared templates, xpath_dynamic and javascript_with_context on record and ancestor is run under every on/off/capacity-1 combination of node pool, transform cache, JS caches and xpath cache, twice per configuration; TLC requires equality with the all-off run. One known finding (node-JSON cache on an ancestor) is listed in known_findings.json.",
    note="Trusted: TLC, lru/sync.Pool implementations. Cache switches are verif-tagged setters; the xpath cache has no off switch (capacity 1 instead)."),
+ "C15": dict(cat="exploration", design="5/C15",
+   technique="multi-run trace validation: transcripts (with checksums) of the same (schema, input) recorded in several fresh processes, after different seeded histories of other transforms and repeated, are checked by TLC against Trace_Runs.tla (Same); checksum sensitivity pairs against Distinct/Equal",
+   text="Each corpus item is run in 3 (thorough 6) fresh processes, twice per process at seeded positions of a whole-corpus history, and alone in a fresh process; TLC requires every transcript to be byte-identical (fingerprints over class, output, error text, checksum) to the item's golden run. Per format, equal raw records must have equal checksums and pairs differing in exactly one ingested value distinct ones; three XML value classes the canonical JSON drops by design are listed as known findings.",
+   note="Trusted: TLC. Histories are sampled. `now` and randomness are excluded by construction of the corpus."),
 }
 
 def main():
